@@ -121,6 +121,8 @@ REJECTIONS = {
     "occs_aminusb": (dict(mo="aminusb"), ("molden", "molekel", "wfn", "wfx"), (False,)),
     "pure-functions": (dict(shellset="+d-pure"), ("wfn", "wfx"), (False, True)),
     "non-aufbau": (dict(mo="fractional"), ("fchk",), (False, True)),
+    "non-aufbau-beta-hole": (dict(mo="beta-hole"), ("fchk",), (False, True)),
+    "non-aufbau-aminusb": (dict(mo="aminusb"), ("fchk",), (False, True)),
 }
 
 
